@@ -33,7 +33,7 @@ def gen_cases(ctx, n):
              "switch_fraction": r.choice([0.3, 0.5, 0.0, 1.0])}
         if r.random() < 0.6:
             k = sorted(set(r.randint(2, 40) for _ in range(r.choice([1, 1, 2, 3, 12]))))
-            c["faults"] = [[i, r.choice(["rec", "nan_logp", "huge_energy"])] for i in k]
+            c["faults"] = [[i, r.choice(["rec", "nan_logp", "inf_logp"])] for i in k]
         cases.append(c)
     return cases
 
@@ -128,7 +128,7 @@ def run(ctx):
                 stats["divergent_draws"] += 1
                 if d["pos"] != d["prev_pos"]:
                     bad(c, "divergent draw %d moved the position" % k)
-            if quick and len(eexprs) < 400 or not quick and len(eexprs) < 4000:
+            if (quick and len(eexprs) < 160) or (not quick and len(eexprs) < 4000):
                 for call in d["esh"][:2]:
                     e, meta = esh_check(c, call)
                     eexprs.append(e)
